@@ -532,7 +532,11 @@ pub fn run_check(sc: &dyn Scenario, tier: Tier) -> i32 {
 fn first_line(s: &str) -> String {
     let l = s.lines().next().unwrap_or("");
     if l.len() > 300 {
-        format!("{}...", &l[..300])
+        let mut e = 300;
+        while !l.is_char_boundary(e) {
+            e -= 1;
+        }
+        format!("{}...", &l[..e])
     } else {
         l.to_string()
     }
